@@ -173,25 +173,52 @@ def rule_cli_exit(em, rep, rid, listener_classes):
     main = em.repo.find_func('compiler.main')
     if main is None:
         raise AnalysisError('anchor vanished: compiler.main')
-    calls = [n for n in own_nodes_ordered(main.node) if isinstance(n, ast.Call) and isinstance(n.func, ast.Name) and 'compile' in n.func.id]
-    if not calls:
-        raise AnalysisError('main() does not call the compile function')
+    pipes = pipeline_function(em)
+    # functions between main() and the pipeline function
+    sites = []
+    reach = em.cg.reachable([main], with_refs=False, include_nested=False)
+    for f in reach:
+        for n, cs in em.cg.calls.get(f, ()):
+            if any(p in cs for p in pipes):
+                sites.append((f, n))
+    if not sites:
+        raise AnalysisError('main() does not reach the compile pipeline')
     caught = []
-    for c in calls:
+    for f, c in sites:
         child = c
         for p in parents(c):
             if isinstance(p, (ast.FunctionDef, ast.Lambda)):
                 break
             if isinstance(p, ast.Try) and any(child is s or any(x is child for x in ast.walk(s)) for s in p.body):
                 for h in p.handlers:
-                    key = '%s:except %s' % (main.qname, norm(h.type) if h.type else '')
+                    key = '%s:except %s' % (f.qname, norm(h.type) if h.type else '')
                     last = h.body[-1] if h.body else None
                     if isinstance(last, ast.Raise):
-                        rep.ok(rid, key, 'handler converts and re-raises (%s)' % norm(last)[:60], main.loc(h))
-                        caught += ExcMatcher(em.repo, main).handler_names(h)
+                        rep.ok(rid, key, 'handler converts and re-raises (%s)' % norm(last)[:60], f.loc(h))
+                        caught += ExcMatcher(em.repo, f).handler_names(h)
+                    elif f is not main and isinstance(last, ast.Return) and isinstance(last.value, ast.Constant) and not last.value.value:
+                        # the failure is reported through the return value: every caller must accumulate it
+                        caught += ExcMatcher(em.repo, f).handler_names(h)
+                        okall = True
+                        for g, call in em.cg.call_sites_of(f):
+                            pa = getattr(call, '_parent', None)
+                            loops = [q for q in parents(call) if isinstance(q, (ast.For, ast.While))]
+                            if isinstance(pa, ast.Assign) and loops:
+                                okall = False
+                                rep.violation(rid, '%s:%s' % (g.qname, norm(pa)), 'the result of compiling one source overwrites the result of the '
+                                              'previous one: only the last source decides the exit status (yldpc bad.pl good.pl exits 0)', g.loc(pa))
+                            elif isinstance(pa, ast.Expr):
+                                okall = False
+                                rep.violation(rid, '%s:%s' % (g.qname, norm(pa)), 'the failure status of a source is discarded', g.loc(pa))
+                        # and the accumulated status must lead to a non-zero exit
+                        exits = [x for x in own_nodes(main.node) if (isinstance(x, ast.Raise)) or (isinstance(x, ast.Call) and norm(x.func).split('.')[-1] in ('exit', '_exit'))]
+                        if okall and not exits:
+                            rep.violation(rid, key, 'a source that does not compile is reported but main() never exits with a non-zero status', f.loc(h))
+                        elif okall:
+                            rep.ok(rid, key, 'failure is returned to main(), which accumulates it and exits non-zero', f.loc(h))
                     else:
                         rep.violation(rid, key, 'main() swallows an exception of the compile call: a file that does not compile still '
-                                      'exits with status 0', main.loc(h))
+                                      'exits with status 0', f.loc(h))
             child = p
     rep.minimum('handlers around the compile call in main()', len(caught), 1)
     ce = em.repo.cls('errors', 'CompilerError')
